@@ -163,7 +163,7 @@ DEFAULTS = dict(entry=3, flags=0, scale=8.0, sw=2.0, ow=0.0, oh=0.0, fs=14, ff='
                 fill='black', bg='white', sc='black', step_budget=0, depth_budget=0)
 
 ENTRY_NAMES = ['to_svg', 'to_svg_string_pretty', 'to_svg_string_compressed', 'to_svg_with_settings',
-               'to_svg_with_override_size']
+               'to_svg_with_override_size', 'CellBuffer::from + get_node_with_size twice (entry 5: first render at scale `ow` with the switches inverted)']
 
 
 def _s(x):
